@@ -268,7 +268,7 @@ BOUNDS_TEXT = {
     "thorough": "4 submissions, P<=2, cancel of a queued future",
 }
 MUST_REACH = {"*": ["handover-checked", "blocking-checked"]}
-BUDGET = {"quick": 150.0, "thorough": 1200.0}
+BUDGET = {"quick": 150.0, "thorough": 600.0}
 
 
 def plan(tier, seed):
